@@ -29,6 +29,13 @@ func (check fieldConstraints) checkValue(v val.Value, t *meta.Type) error {
 		// of a member of that type
 		var memberErr error
 		for _, member := range t.Union() {
+			if member.Format().Single() == val.FmtUnion {
+				// a union as member of the union
+				if memberErr = check.checkValue(v, member); memberErr == nil {
+					return nil
+				}
+				continue
+			}
 			if member.Format().Single() != v.Format().Single() {
 				continue
 			}
